@@ -15,6 +15,7 @@ import Drv.Subst
 import Drv.Store
 import Drv.Build
 import Drv.RunRec
+import Drv.AutoObj
 /-! JSON-lines driver over the executable model: one request per line in, one reply per line out. -/
 open Lean
 
@@ -36,6 +37,7 @@ def dispatch (j : Json) : Drv.R Json := do
   | "conc" => Drv.Conc.handle j
   | "cache" => Drv.Cache.handle j
   | "cached" => Drv.Cached.handle j
+  | "autoobj" => Drv.AutoObj.handle j
   | "link" => Drv.Link.handle j
   | _ => throw "bad_op"
 
